@@ -15,9 +15,10 @@ for spec in sys.argv[2:]:
     conf = open(os.path.join(sd, 'confirm.log')).read().split('\n') if os.path.exists(os.path.join(sd, 'confirm.log')) else []
     if 'CONFIRMED' not in conf:
         print(dst, 'NOT CONFIRMED - skipped'); continue
-    subprocess.check_call(['git', '-C', '/repo', 'apply', os.path.join(sd, 'patch.diff')])
+    if subprocess.call(['git', '-C', '/repo', 'apply', os.path.join(sd, 'patch.diff')]) != 0:
+        print(dst, 'PATCH DOES NOT APPLY to the current tree - skipped', flush=True); continue
     try:
-        r = subprocess.run(['./check', prop, '--tier', 'quick'], cwd='/verif', capture_output=True, text=True, timeout=3600)
+        r = subprocess.run(['./check', prop, '--tier', os.environ.get('TIER', 'quick')], cwd='/verif', capture_output=True, text=True, timeout=3600)
         out, rc = r.stdout + r.stderr, r.returncode
     finally:
         subprocess.check_call(['git', '-C', '/repo', 'checkout', '--', '.'])
@@ -42,7 +43,7 @@ for spec in sys.argv[2:]:
             'how': '/verif/tools/confirm_seed.sh in a scratch worktree: run.sh on the unchanged tree (must pass), git apply patch.diff, run.sh (must fail), cargo test --workspace --no-fail-fast --offline (only the 4 known argmax failures allowed)',
             'result': [l for l in conf if l and not l.startswith('==')]},
         'detected_by': {
-            'command': 'git -C /repo apply patch.diff && ./check %s --tier quick ; git -C /repo checkout -- .' % prop,
+            'command': 'git -C /repo apply patch.diff && ./check %s --tier %s ; git -C /repo checkout -- .' % (prop, os.environ.get('TIER', 'quick')),
             'exit_status': rc,
             'deductive_obligations_refuted (Verus)': [v[0] for v in viol if '-native_' not in v[0] and '-kani_' not in v[0]],
             'kani_harnesses_failed': [v[0] for v in viol if '-kani_' in v[0]],
